@@ -500,7 +500,7 @@ func genStack(r *rand.Rand, class string, alpha int, noline bool) []int {
 	case "wide":
 		d = 1 + r.Intn(6)
 	case "deep":
-		d = 500 + r.Intn(25) // crosses the 511 clamp of getNodeId
+		d = 512 + r.Intn(109) // 512..620 frames: deeper than the 511 levels a node id can carry (the corpus has 520 and 600)
 	default:
 		d = 1 + r.Intn(5)
 	}
@@ -509,7 +509,11 @@ func genStack(r *rand.Rand, class string, alpha int, noline bool) []int {
 		if class == "recursive" && i > 0 && r.Intn(2) == 0 {
 			st[i] = st[i-1]
 		} else if class == "deep" {
-			st[i] = 1 + (i+r.Intn(2))%alpha
+			if i > 0 && r.Intn(3) == 0 {
+				st[i] = st[i-1] // runaway recursion: the same frame again
+			} else {
+				st[i] = 1 + (i+r.Intn(2))%alpha
+			}
 		} else {
 			st[i] = 1 + r.Intn(alpha)
 		}
@@ -536,7 +540,7 @@ func genProf(r *rand.Rand, c *Case, class string, st []int) Prof {
 	case "tiny":
 		ns = 1 + r.Intn(3)
 	case "shared", "recursive":
-		ns = 3 + r.Intn(30)
+		ns = 3 + r.Intn(22)
 	case "wide":
 		ns = 50 + r.Intn(150)
 		if alpha > 4 {
@@ -622,6 +626,10 @@ func genNames(r *rand.Rand) []string {
 }
 
 func genE2E(r *rand.Rand, id int) Case {
+	return genE2EClass(r, id, "")
+}
+
+func genE2EClass(r *rand.Rand, id int, force string) Case {
 	c := Case{ID: id, Kind: "e2e", Names: genNames(r), Types: typePool, Perm: r.Int63()}
 	classes := []string{"tiny", "shared", "shared", "recursive", "wide", "deep", "emptystack", "nosamples", "mixed", "mixed", "mixed", "big", "bigtags", "bad"}
 	weights := []int{6, 10, 10, 8, 2, 1, 3, 1, 8, 8, 8, 1, 1, 2}
@@ -641,7 +649,10 @@ func genE2E(r *rand.Rand, id int) Case {
 	}
 	cls := pick()
 	if cls == "deep" && r.Intn(3) != 0 {
-		cls = "recursive" // deep stacks are expensive to evaluate inside Coq: keep them rare
+		cls = "recursive" // deep stacks are expensive to evaluate inside Coq: the random ones stay rare ...
+	}
+	if force != "" {
+		cls = force // ... and a fixed share of the cases is deep (see main)
 	}
 	nt := 1 + r.Intn(4)
 	st := r.Perm(5)[:nt]
@@ -795,6 +806,8 @@ func main() {
 	for i := 0; i < f.N; i++ {
 		var c Case
 		switch {
+		case i%150 == 3:
+			c = genE2EClass(r, i, "deep") // a fixed share of the cases: stacks of 512..620 frames
 		case i%10 == 9:
 			c = genHash(r, i)
 		case i%10 >= 6:
